@@ -17,6 +17,7 @@ git apply $OUT/patch.diff
 PYTHONPATH=$WT/src timeout 600 /venv/bin/python $OUT/demo.py > $OUT/demo_mut.log 2>&1; RC_MUT=$?
 echo "demo: clean=$RC_CLEAN mutated=$RC_MUT"
 TESTS="skipped"
+[ -f $OUT/confirm_only.txt ] && TESTS="$(sed 's/.*tests: //' $OUT/confirm_only.txt) (tools/confirm_only.sh, -n 3)"
 if [ "${SKIP_TESTS:-0}" != 1 ]; then
   TESTS=$(cd $WT && PYTHONPATH=$WT/src timeout 2400 /venv/bin/python -m pytest -q -p no:cacheprovider -n 8 src/pandapipes/test 2>&1 | tail -1)
   echo "tests: $TESTS"
